@@ -9,6 +9,7 @@ FUNC = "solve_yajilin"
 LOOP = True
 KIND = {"^": 1, "v": 2, "<": 3, ">": 4}
 TIER1 = ("Yajilin", "solve_yajilin_model")
+TIER1_PRIM = ("YajilinPrim", "solve_yajilin_model_prim")
 
 
 def call(mod, pb):
